@@ -27,6 +27,7 @@ def gen_stack(rng, stack, correct=True, coap_style=None):
 def prefix_free_codes(rng, n, fixed_width=None, maxlen=6):
     """n distinct prefix-free bit strings; fixed width or mixed widths (a random binary code tree)"""
     if fixed_width is not None:
+        if fixed_width == 0: return ['']            # one entry, sent on zero bits: {''} is prefix-free
         vals = rng.sample(range(1 << fixed_width), n)
         return [format(v, f'0{fixed_width}b') for v in vals]
     leaves = ['']
